@@ -31,7 +31,38 @@ func nestedValue(n int, dict bool) []byte {
 	return b
 }
 
+// hostile string length prefixes (where = 3: in the torrent file, 4: NewInfo): depth selects the prefix
+var hugePrefixes = []string{"9223372036854775808", "18446744073709551595", "18446744073709551616", "9223372036854775807",
+	"99999999999999999999999999", "4294967296", "2147483648", "00000000000000000000005"}
+
+func runHugePrefix(in []int64) []int64 {
+	pre := hugePrefixes[int(in[1])%len(hugePrefixes)]
+	var doc []byte
+	switch in[2] {
+	case 0: // as the value of an unknown key that sorts first
+		doc = []byte("d1:a" + pre + ":xe")
+	case 1: // as a key
+		doc = []byte("d" + pre + ":x1:ye")
+	default: // as the name
+		doc = []byte("d6:lengthi1000e4:name" + pre + ":t12:piece lengthi16384e6:pieces20:" + string(make([]byte, 20)) + "e")
+	}
+	return scanWithWatchdog(func() int64 {
+		var err error
+		if in[0] == 3 {
+			full := append([]byte("d4:info"), doc...)
+			full = append(full, 'e')
+			_, err = metainfo.New(bytes.NewReader(full))
+		} else {
+			_, err = metainfo.NewInfo(doc, true, true)
+		}
+		return b2i(err == nil)
+	})
+}
+
 func runNesting(in []int64) []int64 {
+	if in[0] >= 3 {
+		return runHugePrefix(in)
+	}
 	where, depth, dict := in[0], int(in[1]), in[2] != 0
 	info := []byte("d6:lengthi1000e4:name1:t12:piece lengthi16384e6:pieces20:")
 	info = append(info, make([]byte, 20)...)
@@ -64,6 +95,10 @@ func genNesting(r *rand.Rand, tier string) Case {
 	depth := pick(r, 1, 2, 5, 30, 61, 62, 63, 64, 65, 66, 100, 1000, 100000)
 	if r.Intn(40) == 0 {
 		depth = 4000000 // ten megabytes is the default limit of a torrent file
+	}
+	if r.Intn(4) == 0 {
+		in := []int64{int64(3 + r.Intn(2)), int64(r.Intn(len(hugePrefixes))), int64(r.Intn(3))}
+		return Case{In: in, Obs: Guard(func() []int64 { return runNesting(in) })}
 	}
 	in := []int64{int64(r.Intn(3)), depth, int64(r.Intn(2))}
 	if in[2] == 1 && depth > 100000 {
